@@ -43,6 +43,7 @@ ops! {
     D_last_day_of_month = "Date::last_day_of_month", D_trunc = "Date::trunc_*", D_round = "Date::round_*",
     D_accessors = "Date::{year,month,day,hour,minute,second,date}", D_cmp = "Date::{eq,cmp,hash}",
     D_cmp_ts = "Date<=>Timestamp", D_cmp_ora = "Date<=>OracleDate",
+    X_month_from_usize = "Month::from(usize)", X_weekday_from_usize = "WeekDay::from(usize)",
     // Time
     T_try_from_hms = "Time::try_from_hms", T_is_valid = "Time::is_valid", T_try_from_usecs = "Time::try_from_usecs",
     T_usecs = "Time::usecs", T_extract = "Time::extract", T_format = "Time::format", T_parse = "Time::parse",
